@@ -67,7 +67,9 @@ func (s *Server) VerifyHeader(chain consensus.ChainReader, header *types.Header,
 // looking those up from the database. This is useful for concurrently verifying
 // a batch of new headers.
 func (s *Server) verifyHeader(chain consensus.ChainReader, header *types.Header, parents []*types.Header, seal bool) error {
-	if header.Number == nil {
+	// (block numbers are 64 bit everywhere below: a number beyond that range would be taken
+	// for its low 64 bits, e.g. 2^64 for the genesis block's 0, which needs no votes)
+	if header.Number == nil || !header.Number.IsUint64() {
 		return errUnknownBlock
 	}
 
